@@ -542,8 +542,10 @@ class Worker:
         preprocess = getattr(self, 'preprocess', None)
 
         while True:
-            if buffer.full():
-                with buffer._not_full:
+            with buffer._not_full:
+                # Test under the lock, otherwise the consumer's notification
+                # may slip in between the test and the wait and be lost.
+                if buffer.full():
                     buffer._not_full.wait()
 
             # Multiple workers in separate processes may be competing
